@@ -173,7 +173,6 @@ var c10Mut = []func(r *Rng, h int) Sx{
 	func(r *Rng, h int) Sx { return L(A("abort")) },
 	func(r *Rng, h int) Sx { return L(A("abs"), I(403)) },
 	func(r *Rng, h int) Sx { return L(A("w"), L(A("fl"))) },
-	func(r *Rng, h int) Sx { return L(A("hijack")) },
 }
 
 func c10Gen(r *Rng, tier string, i int) Sx {
@@ -199,6 +198,9 @@ func c10Gen(r *Rng, tier string, i int) Sx {
 		mainOps = append(mainOps, ev(main*10))
 		for n := r.Intn(4); n > 0; n-- {
 			mainOps = append(mainOps, c10Mut[r.Intn(len(c10Mut))](r, main))
+		}
+		if r.Chance(1, 24) { // the handler takes over the connection (outside the writer model: judged by the twin oracle only)
+			mainOps = append(mainOps, L(A("hijack")))
 		}
 		if r.Chance(1, 6) {
 			mainOps = append(mainOps, L(A("panic"), I(main)))
